@@ -175,6 +175,9 @@ impl Check for HistCheck {
             "C04" => self.run_c04(&h, ext, &mut rep),
             _ => self.run_c20(&h, ext, &mut rep),
         }
+        if self.prop == "C04" && case % 10 == 0 {
+            self.run_c04_lsp(&h, ext, &mut rep);
+        }
         if case < 2 {
             rep.sample = Some(json!({"initial_keys": h.initial.keys().collect::<Vec<_>>(), "steps": h.steps.iter().map(|s| format!("{} {}", s.what, s.key)).collect::<Vec<_>>() }));
         }
@@ -233,6 +236,110 @@ impl HistCheck {
             }
             Err(p) => rep.violate("panic", &format!("{}@clean", p.signature()), p.message.clone(), replay(h.steps.len() - 1)),
         }
+    }
+
+    /// the same comparison at the LSP boundary: a server that received the history as didChange / didSave
+    /// notifications vs. a server freshly started on the final texts
+    fn run_c04_lsp(&self, h: &History, ext: &str, rep: &mut CaseReport) {
+        use crate::lsp::{Outcome, Server};
+        if h.initial.is_empty() {
+            return; // an empty state would make main_loop read the (non-existent) base directory
+        }
+        crate::lsp::reset_log();
+        let mut inc = Server::start_mem(&h.initial, ext);
+        let mut texts = h.initial.clone();
+        for (i, s) in h.steps.iter().enumerate() {
+            if i % 2 == 0 {
+                inc.did_change(&s.key, &s.text);
+            } else {
+                inc.did_save(&s.key, &s.text);
+            }
+            texts.insert(s.key.clone(), s.text.clone());
+        }
+        let mut fresh = Server::start_mem(&texts, ext);
+        let replay = json!({"initial": h.initial, "refs_extension": ext, "via": "lsp", "steps": h.steps.iter().map(|s| json!({"key": s.key, "what": s.what, "text": s.text})).collect::<Vec<_>>()});
+        let strip = |v: serde_json::Value| -> String {
+            // node ids inside code-action data differ between the two servers by construction
+            let mut v = v;
+            // completion items are sorted by label only; the order among equal labels is not part of any
+            // property (it follows hash-map order): compare them as a set
+            if let Some(items) = v.get_mut("items").and_then(|i| i.as_array_mut()) {
+                items.sort_by_key(|i| i.to_string());
+            }
+            if let Some(a) = v.as_array_mut() {
+                for x in a.iter_mut() {
+                    if let Some(o) = x.as_object_mut() {
+                        o.remove("data");
+                    }
+                }
+            }
+            v.to_string()
+        };
+        let as_set = |m: &str, v: serde_json::Value| -> serde_json::Value {
+            // find-references reports a set of places; only the grouping by file is ordered
+            let mut v = v;
+            if m == "textDocument/references" {
+                if let Some(a) = v.as_array_mut() {
+                    a.sort_by_key(|l| l.to_string());
+                }
+            }
+            v
+        };
+        let mut ask = |m: &str, p: serde_json::Value| -> (String, String) {
+            let a = match inc.request(m, p.clone()) { Outcome::Result(v) => strip(as_set(m, v)), o => format!("{:?}", o) };
+            let b = match fresh.request(m, p) { Outcome::Result(v) => strip(as_set(m, v)), o => format!("{:?}", o) };
+            (a, b)
+        };
+        let mut diffs = vec![];
+        let mut order_diffs: Vec<(String, String)> = vec![];
+        for (k, t) in &texts {
+            let uri = format!("file:///basepath/{}.md", k);
+            let mut reqs = vec![
+                ("textDocument/formatting", json!({"textDocument": {"uri": uri}, "options": {"tabSize": 2, "insertSpaces": true}})),
+                ("textDocument/references", json!({"textDocument": {"uri": uri}, "position": {"line": 0, "character": 0}, "context": {"includeDeclaration": false}})),
+                ("textDocument/inlayHint", json!({"textDocument": {"uri": uri}, "range": {"start": {"line": 0, "character": 0}, "end": {"line": 100000, "character": 0}}})),
+                ("textDocument/documentSymbol", json!({"textDocument": {"uri": uri}})),
+                ("textDocument/completion", json!({"textDocument": {"uri": uri}, "position": {"line": 0, "character": 0}})),
+            ];
+            for line in 0..t.lines().count().min(30) {
+                reqs.push(("textDocument/codeAction", json!({"textDocument": {"uri": uri}, "range": {"start": {"line": line, "character": 0}, "end": {"line": line, "character": 0}}, "context": {"diagnostics": []}})));
+            }
+            for (m, p) in reqs {
+                rep.count("lsp_comparisons", 1);
+                let (a, b) = ask(m, p.clone());
+                if a != b && diffs.len() < 3 {
+                    // same elements in a different order? (a separate, weaker clause)
+                    let sorted = |t: &str| -> Option<Vec<String>> {
+                        serde_json::from_str::<Vec<serde_json::Value>>(t).ok().map(|v| {
+                            let mut x: Vec<String> = v.iter().map(|e| e.to_string()).collect();
+                            x.sort();
+                            x
+                        })
+                    };
+                    if sorted(&a).is_some() && sorted(&a) == sorted(&b) {
+                        order_diffs.push((m.to_string(), format!("{} on {}: same entries, different order", m, k)));
+                        continue;
+                    }
+                    let i = a.chars().zip(b.chars()).position(|(x, y)| x != y).unwrap_or(0).saturating_sub(60);
+                    diffs.push(format!("{} on {} {}: first difference: incremental …{} vs fresh …{}", m, k, p.get("range").map(|r| r.to_string()).unwrap_or_default(), a.chars().skip(i).take(700).collect::<String>(), b.chars().skip(i).take(700).collect::<String>()));
+                }
+            }
+        }
+        for q in ["", "alpha", "a"] {
+            rep.count("lsp_comparisons", 1);
+            let (a, b) = ask("workspace/symbol", json!({"query": q}));
+            if a != b && diffs.len() < 3 {
+                diffs.push(format!("workspace/symbol `{}`: incremental {} vs fresh {}", q, a.chars().take(240).collect::<String>(), b.chars().take(240).collect::<String>()));
+            }
+        }
+        for d in diffs {
+            rep.violate("stale-lsp-answer", "clean", d, replay.clone());
+        }
+        for (m, d) in order_diffs.into_iter().take(1) {
+            rep.violate("lsp-answer-order-depends-on-history", &m, d, replay.clone());
+        }
+        let _ = inc.shutdown();
+        let _ = fresh.shutdown();
     }
 
     fn run_c20(&self, h: &History, ext: &str, rep: &mut CaseReport) {
